@@ -193,6 +193,11 @@ def gamut_and_jsd(seed):
                 sup_rel = dreye.compute_gamut(X.copy(), relative_to=sup.copy(), metric=metric, seed=3)
                 if sup_rel > 1 + 1e-9 or sup_rel <= 0:
                     bad.append(("C18.gamut-superset", w, "<=1", float(sup_rel)))
+                # a flat subset (two chromaticities: a segment) relative to its full-dimensional superset
+                for supset in (sup, X):
+                    flat_rel = dreye.compute_gamut(X[:2].copy(), relative_to=supset.copy(), metric=metric, seed=3)
+                    if flat_rel > 1 + 1e-9 or flat_rel < 0:
+                        bad.append(("C18.gamut-superset", dict(flat_subset=True, **w), "<=1", float(flat_rel)))
             except Exception as ex:
                 bad.append(("C18.no-error", dict(exc=type(ex).__name__, op="compute_gamut", **w), None, repr(ex)[:200]))
     # estimator fractional gamut in absolute capture
